@@ -175,15 +175,30 @@ fn o03a_zigzag_i64_roundtrip() {
 //@ props: C03
 //@ kind: bounded
 //@ bound: positions 0..=5, three successive updates, all i32 values
+//@ tier: thorough
 //@ timeout: 900
 //@ functions: collection::CollectionV3::set_in_group_id collection::CollectionV3::get_in_group_id collection::CollectionV3::clear_in_group_ids
-//@ stubs: std::hash::RandomState::new
 //@ claim: the predictor table behaves as a map with default -1: set(pos,val) makes get(pos)==val and leaves every other position unchanged (growth by the f64 policy fills new entries with -1); clear() resets every position to -1. Discharges, for small concrete positions, the table contracts the Verus unit collection_details assumes
 #[kani::proof]
 #[kani::unwind(12)]
-#[kani::stub(std::hash::RandomState::new, stub_random_state_new)]
 fn o03s_in_group_id_table_is_a_map() {
-    let mut c = CollectionV3::new();
+    // built field by field with a fixed hasher state: CollectionV3::new() seeds its HashMap from the OS
+    let mut c = CollectionV3 {
+        sample_desc: Vec::new(),
+        sample_ids: HashMap::with_hasher(stub_random_state_new()),
+        collection_samples_id: None,
+        collection_contigs_id: None,
+        collection_details_id: None,
+        batch_size: 1 << 20,
+        segment_size: 0,
+        kmer_length: 0,
+        prev_sample_name: String::new(),
+        placing_sample_name: String::new(),
+        placing_sample_id: 0,
+        no_samples_in_last_batch: 0,
+        samples_loaded: 0,
+        in_group_ids: Vec::new(),
+    };
     let mut shadow = [-1i32; 12];
     let mut step = 0;
     while step < 3 {
@@ -199,6 +214,7 @@ fn o03s_in_group_id_table_is_a_map() {
     kani::assert(c.get_in_group_id(q) == shadow[q], "O-03s: get after sets returns the last value set, -1 for untouched positions");
     c.clear_in_group_ids();
     kani::assert(c.get_in_group_id(q) == -1, "O-03s: clear resets the table");
+    core::mem::forget(c);
 }
 
 #[allow(dead_code)]
